@@ -74,6 +74,20 @@ var nilArgCases = []nilArgCase{
 	{"C19", "input-output-query", `io.input("$F")`, []string{`io.input() == io.input(), io.output() == io.stdout, io.input():read("*l")`, `io.input(nil) == io.input(), io.output(nil) == io.stdout, io.input(nil):read("*l")`}},
 	{"C19", "setvbuf-size", `local f = io.open("$F", "a")`, []string{`f:setvbuf("full"), f:write("x"), f:close(), io.open("$F"):read("*a")`, `f:setvbuf("full", nil), f:write("x"), f:close(), io.open("$F"):read("*a")`}},
 	{"C19", "read-without-format-is-a-line", `local f = io.open("$F")`, []string{`f:read()`, `f:read("*l")`}},
+	// surplus arguments are ignored (lua_settop / arguments never read)
+	{"C02", "xpcall-ignores-surplus-arguments", `local function f(...) return "r", select("#", ...) end local function h(m) return m end`, []string{`xpcall(f, h)`, `xpcall(f, h, "x1")`, `xpcall(f, h, "x1", "x2")`}},
+	{"C02", "xpcall-failure-ignores-surplus-arguments", `local function f(...) error("e" .. select("#", ...), 0) end local function h(m) return "H" .. m end`, []string{`xpcall(f, h)`, `xpcall(f, h, "x1")`}},
+	{"C02", "unpack-select-surplus", `local t = {1, 2, 3}`, []string{`unpack(t, 1, 3)`, `unpack(t, 1, 3, "x")`}},
+	{"C09", "raw-access-surplus", `local t = {10, a = 1}`, []string{`rawget(t, 1), rawget(t, "a"), rawequal(t, t), next(t, nil) ~= nil, #rawset(t, 2, 20)`, `rawget(t, 1, "x"), rawget(t, "a", "x"), rawequal(t, t, "x"), next(t, nil, "x") ~= nil, #rawset(t, 2, 20, "x")`}},
+	{"C04", "metatable-functions-surplus", `local mt = {} local t = setmetatable({}, mt)`, []string{`getmetatable(t) == mt, setmetatable(t, nil) == t, tostring(1)`, `getmetatable(t, "x") == mt, setmetatable(t, nil, "x") == t, tostring(1, "x")`}},
+	{"C15", "string-functions-surplus", `local s = "hello"`, []string{`s:len(), s:sub(2, 3), s:upper(), s:lower(), s:rep(2), s:reverse(), s:byte(1, 2)`, `s:len("x"), s:sub(2, 3, "x"), s:upper("x"), s:lower("x"), s:rep(2, "x"), s:reverse("x"), s:byte(1, 2, "x")`}},
+	{"C15", "math-functions-surplus", ``, []string{`math.floor(1.5), math.abs(-2), math.sqrt(4), math.fmod(7, 3), math.pow(2, 3), math.ldexp(1, 2)`, `math.floor(1.5, 9), math.abs(-2, 9), math.sqrt(4, 9), math.fmod(7, 3, 9), math.pow(2, 3, 9), math.ldexp(1, 2, 9)`}},
+	{"C14", "pattern-functions-surplus", `local s = "abcabc"`, []string{`s:find("b", 1, false), s:match("(b)", 1), s:gsub("b", "X", 1)`, `s:find("b", 1, false, "x"), s:match("(b)", 1, "x"), s:gsub("b", "X", 1, "x")`}},
+	{"C06", "coroutine-functions-surplus", `local co = coroutine.create(function() end)`, []string{`coroutine.status(co), type(coroutine.wrap(function() end)), coroutine.running()`, `coroutine.status(co, "x"), type(coroutine.wrap(function() end, "x")), coroutine.running("x")`}},
+	{"C16", "tonumber-tostring-surplus", ``, []string{`tonumber("10", 16), tostring(12), os.time({year = 2000, month = 1, day = 1, hour = 0}) == os.time({year = 2000, month = 1, day = 1, hour = 0})`, `tonumber("10", 16, "x"), tostring(12, "x"), os.time({year = 2000, month = 1, day = 1, hour = 0}, "x") == os.time({year = 2000, month = 1, day = 1, hour = 0})`}},
+	{"C18", "table-functions-surplus", `local function run(x) local t = {"a", "b", "c"} return table.concat(t, ",", 1, 3, x), table.remove(t, 1, x), table.maxn(t, x), #t end`, []string{`run()`, `run("x")`}},
+	{"C19", "io-functions-surplus", `local f = io.open("$F")`, []string{`f:seek("set", 1), f:read(1), io.type(f), f:close()`, `f:seek("set", 1, "x"), f:read(1), io.type(f, "x"), f:close("x")`}},
+	{"C05", "error-pcall-surplus", ``, []string{`pcall(function() error("m", 1) end)`, `pcall(function() error("m", 1, "x") end)`}},
 	// C18 (the BFS part has its own explicit-nil cases; these are the function forms)
 	{"C18", "concat-sep-i-j", `local t = {"a", "b", "c"}`, []string{`table.concat(t)`, `table.concat(t, nil)`, `table.concat(t, "")`, `table.concat(t, nil, nil)`, `table.concat(t, "", 1)`, `table.concat(t, nil, nil, nil)`, `table.concat(t, "", 1, 3)`, `table.concat(t, nil, 1, nil)`}},
 	{"C18", "remove-pos", `local function run(f) local t = {1, 2, 3} local r = f(t) return r, #t, t[1], t[3] end`, []string{`run(function(t) return table.remove(t) end)`, `run(function(t) return table.remove(t, nil) end)`, `run(function(t) return table.remove(t, 3) end)`}},
